@@ -31,7 +31,7 @@ META = {
 }
 
 
-def make_scn(seed, idx, backend, gated=False, displays=False):
+def make_scn(seed, idx, backend, gated=False, displays=False, cold=False):
     from vlab.dagcommon import gen_dag_scenario, scenario_rng
     rng = scenario_rng(seed, 'C14scn' + backend, idx)
     scn = gen_dag_scenario(rng, backend=backend, nmax=rng.choice([3, 4, 5]), fresh=False, precache=False,
@@ -59,6 +59,10 @@ def make_scn(seed, idx, backend, gated=False, displays=False):
             t['many'] = []
     scn['spec']['requested'] = gen_requested(rng, scn['spec'])
     scn['pre'] = [n for n in names if rng.random() < 0.35]
+    if cold:
+        # nothing cached beforehand and everything requested: every cacheable task goes through its FIRST save
+        scn['pre'] = []
+        scn['spec']['requested'] = list(names)
     scn['pre_backend'] = 'serial'
     scn['bust'] = False
     scn['max_workers'] = rng.choice([2, 2, 3])
@@ -332,7 +336,7 @@ def jobs_for(rep, cfg):
     jobs = []
     for i in range(cfg['serial_scn'] + 1):
         displays = (i == cfg['serial_scn'])
-        scn = make_scn(rep.seed, i, 'serial', displays=displays)
+        scn = make_scn(rep.seed, i, 'serial', displays=displays, cold=(i % 2 == 1))
         c = run_case(scn, 'line', count_only=True)
         n = c['n_lines'] or 0
         rep.count('serial_line_points', n)
@@ -341,7 +345,7 @@ def jobs_for(rep, cfg):
             jobs.append(('line', scn, k, None, None))
     for backend, key in (('fork', 'fork'), ('spawn', 'spawn')):
         for i in range(cfg[key + '_scn']):
-            scn = make_scn(rep.seed, i, backend)
+            scn = make_scn(rep.seed, i, backend, cold=(i % 2 == 1))
             c = run_case(scn, 'line', count_only=True)
             n = c['n_lines'] or 0
             rep.count(backend + '_line_points', n)
